@@ -27,18 +27,27 @@
 //!     parts followed by the right child's; `Concat::update` is overridden (rebuilds in place).
 //!   * `iter k`: the iterator handed to from_iter is `Vec::into_iter()`, a lazy `.iter().cloned().map(..)`
 //!     or a `.rev()` of the reversed vector, by k mod 3.
+//! Width kinds `w.<type>.<kind>`: the built-in item <kind> (min, max, sum, minadd, maxadd, sumadd, comb2, comb3,
+//! combunit - tokens and encodings of the i64 kind of that name) over the primitive <type>, for every type
+//! rlib_num_traits implements MinMax / ZeroOne for (table `for_prim!` in main): on a history whose numbers fit
+//! the type the observation line is the one of the i64 kind (floats: integral values print as integers, anything
+//! else as `X`).  One more self-check there:
+//!   * `dbg`: ZeroOne::{ZERO, ONE}, MinMax::{MIN, MAX}, Default of the element type (through the traits, as the
+//!     items see them), every field of the item's Default::default(), of new(1) and of from(1) are compared with
+//!     what std says (`<type>::MAX`, 0, 1 ...): `d CONST-MISMATCH ...`.
 use rlib_segtree::segtree_items::{Combinator, Max, MaxAdd, Min, MinAdd, Sum, SumAdd};
-use rlib_num_traits::MinMax;
+use rlib_num_traits::{MinMax, ZeroOne};
 use rlib_segtree::{Segtree, SegtreeItem};
 use std::cell::{Cell, RefCell};
 use std::fmt::Debug;
+use std::marker::PhantomData;
 
 #[derive(Clone, Debug)]
 enum Pred {
     True,
     False,
-    Ge(i64),
-    Le(i64),
+    Ge(i128),
+    Le(i128),
     Fst(Box<Pred>),
     Snd(Box<Pred>),
     NotPrefix(String),
@@ -126,7 +135,8 @@ impl<'a> Toks<'a> {
     }
 }
 
-fn eval_z(p: &Pred, v: i64) -> bool {
+fn eval_z<V: Into<i128>>(p: &Pred, v: V) -> bool {
+    let v: i128 = v.into();
     match p {
         Pred::True => true,
         Pred::False => false,
@@ -938,32 +948,455 @@ impl Kind for CFl {
     }
 }
 
+// ---------------------------------------------------------------- every built-in item over every primitive number type
+/// What the width kinds need from a primitive element type.  The bounds are those the built-in items ask for
+/// (`MinMax` for the Default of Min / Max / MinAdd / MaxAdd, `ZeroOne` for the leaf length of SumAdd): the impls
+/// come from the sibling crate rlib_num_traits, selected by the type.  `STD_*` are what std says the constants
+/// are - never taken from rlib_num_traits.
+trait Prim:
+    Copy
+    + Debug
+    + Default
+    + PartialOrd
+    + std::ops::Add<Output = Self>
+    + std::ops::Mul<Output = Self>
+    + std::ops::AddAssign
+    + MinMax
+    + ZeroOne
+{
+    const STD_MIN: Self;
+    const STD_MAX: Self;
+    const STD_ZERO: Self;
+    const STD_ONE: Self;
+    /// FromStr of the type itself (a token that does not fit the type is a harness error)
+    fn parse(s: &str) -> Self;
+    /// the value as an integer; `X` for a float that is not a small integral value
+    fn show(self) -> String;
+    /// for the thresholds of the predicates (saturating: only u128 above i128::MAX and huge floats saturate)
+    fn to_i128(self) -> i128;
+    /// same bits
+    fn same(self, o: Self) -> bool;
+}
+macro_rules! prim_int {
+    ($($t:ty),*) => {$(
+        impl Prim for $t {
+            const STD_MIN: $t = <$t>::MIN;
+            const STD_MAX: $t = <$t>::MAX;
+            const STD_ZERO: $t = 0;
+            const STD_ONE: $t = 1;
+            fn parse(s: &str) -> $t { vh::p(s) }
+            fn show(self) -> String { format!("{}", self) }
+            fn to_i128(self) -> i128 { i128::try_from(self).unwrap_or(i128::MAX) }
+            fn same(self, o: $t) -> bool { self == o }
+        }
+    )*};
+}
+macro_rules! prim_float {
+    ($($t:ty),*) => {$(
+        impl Prim for $t {
+            const STD_MIN: $t = <$t>::MIN;
+            const STD_MAX: $t = <$t>::MAX;
+            const STD_ZERO: $t = 0.0;
+            const STD_ONE: $t = 1.0;
+            fn parse(s: &str) -> $t { vh::p(s) }
+            fn show(self) -> String {
+                if self.fract() == 0.0 && self.abs() < 1.0e15 { format!("{}", self as i128) } else { "X".to_string() }
+            }
+            fn to_i128(self) -> i128 { self as i128 }
+            fn same(self, o: $t) -> bool { self.to_bits() == o.to_bits() }
+        }
+    )*};
+}
+/// the instantiation table: `$f::<type>(a, b)` for the type named by `$name`
+macro_rules! for_prim {
+    ($name:expr, $f:ident, $a:expr, $b:expr; $($t:ident),*) => {
+        match $name {
+            $(stringify!($t) => $f::<$t>($a, $b),)*
+            other => {
+                eprintln!("harness: unknown primitive type {}", other);
+                std::process::exit(3)
+            }
+        }
+    };
+}
+prim_int!(i8, i16, i32, i64, i128, isize, u8, u16, u32, u64, u128, usize);
+prim_float!(f32, f64);
+
+fn differs<W: Prim>(out: &mut Vec<String>, what: &str, got: W, want: W) {
+    if !got.same(want) {
+        out.push(format!("{} {} = {:?}, std says {:?}", std::any::type_name::<W>(), what, got, want));
+    }
+}
+/// The constants of the element type, as the items see them (through the traits of rlib_num_traits); each item
+/// reports those of the traits it asks for: MinMax (Min, Max, MinAdd, MaxAdd), ZeroOne (SumAdd), Default (all
+/// but Min / Max).
+fn mm_consts<W: Prim>(out: &mut Vec<String>) {
+    differs(out, "MinMax::MIN", <W as MinMax>::MIN, W::STD_MIN);
+    differs(out, "MinMax::MAX", <W as MinMax>::MAX, W::STD_MAX);
+}
+fn zo_consts<W: Prim>(out: &mut Vec<String>) {
+    differs(out, "ZeroOne::ZERO", <W as ZeroOne>::ZERO, W::STD_ZERO);
+    differs(out, "ZeroOne::ONE", <W as ZeroOne>::ONE, W::STD_ONE);
+}
+fn dflt_const<W: Prim>(out: &mut Vec<String>) {
+    differs(out, "Default::default()", W::default(), W::STD_ZERO);
+}
+
+/// Codec of the built-in item `I` over a primitive type, tokens and encodings exactly those of the i64 kind
+/// of the same name: the same history prints the same observation line whatever the width.
+struct Wd<I>(PhantomData<I>);
+/// `new` / `From` by the parity of the token's position in the line
+fn by_new(t: &Toks) -> bool {
+    t.i & 1 == 0
+}
+fn fields<W: Prim>(t: &mut Toks) -> (W, W, Option<W>) {
+    let f: Vec<&str> = t.next().split(':').collect();
+    match f.len() {
+        1 => (W::parse(f[0]), W::STD_ZERO, None),
+        2 => (W::parse(f[0]), W::parse(f[1]), None),
+        _ => (W::parse(f[0]), W::parse(f[1]), Some(W::parse(f[2]))),
+    }
+}
+fn eval_w<W: Prim>(p: &Pred, v: W) -> bool {
+    eval_z(p, v.to_i128())
+}
+macro_rules! unit_width_kind {
+    ($item:ident, $dflt:ident, $consts:ident) => {
+        impl<W: Prim> Codec for Wd<$item<W>> {
+            type M = ();
+            type T = $item<W>;
+            fn item(t: &mut Toks) -> Self::T {
+                let v = W::parse(t.next());
+                if by_new(t) {
+                    $item::new(v)
+                } else {
+                    $item::from(v)
+                }
+            }
+            fn modifier(t: &mut Toks) -> () {
+                t.next();
+            }
+            fn enc(x: &Self::T) -> String {
+                x.v.show()
+            }
+            fn eval(p: &Pred, x: &Self::T) -> bool {
+                eval_w(p, x.v)
+            }
+            fn consts() -> Vec<String> {
+                let mut out = Vec::new();
+                $consts::<W>(&mut out);
+                differs(&mut out, concat!(stringify!($item), "::default().v"), <$item<W>>::default().v, W::$dflt);
+                differs(&mut out, concat!(stringify!($item), "::new(1).v"), <$item<W>>::new(W::STD_ONE).v, W::STD_ONE);
+                differs(&mut out, concat!(stringify!($item), "::from(1).v"), <$item<W>>::from(W::STD_ONE).v, W::STD_ONE);
+                out
+            }
+        }
+    };
+}
+unit_width_kind!(Min, STD_MAX, mm_consts);
+unit_width_kind!(Max, STD_MIN, mm_consts);
+unit_width_kind!(Sum, STD_ZERO, dflt_const);
+macro_rules! add_width_kind {
+    ($item:ident, $dflt:ident) => {
+        impl<W: Prim> Codec for Wd<$item<W>> {
+            type M = W;
+            type T = $item<W>;
+            fn item(t: &mut Toks) -> Self::T {
+                let (v, md, _) = fields::<W>(t);
+                let mut x = if by_new(t) { $item::new(v) } else { $item::from(v) };
+                x.md = md;
+                x
+            }
+            fn modifier(t: &mut Toks) -> W {
+                W::parse(t.next())
+            }
+            fn enc(x: &Self::T) -> String {
+                format!("{},{}", x.v.show(), x.md.show())
+            }
+            fn eval(p: &Pred, x: &Self::T) -> bool {
+                eval_w(p, x.v)
+            }
+            fn consts() -> Vec<String> {
+                let mut out = Vec::new();
+                mm_consts::<W>(&mut out);
+                dflt_const::<W>(&mut out);
+                let d = <$item<W>>::default();
+                differs(&mut out, concat!(stringify!($item), "::default().v"), d.v, W::$dflt);
+                differs(&mut out, concat!(stringify!($item), "::default().md"), d.md, W::STD_ZERO);
+                for (how, x) in [("new", <$item<W>>::new(W::STD_ONE)), ("from", <$item<W>>::from(W::STD_ONE))] {
+                    differs(&mut out, &format!("{}::{}(1).v", stringify!($item), how), x.v, W::STD_ONE);
+                    differs(&mut out, &format!("{}::{}(1).md", stringify!($item), how), x.md, W::STD_ZERO);
+                }
+                out
+            }
+        }
+    };
+}
+add_width_kind!(MinAdd, STD_MAX);
+add_width_kind!(MaxAdd, STD_MIN);
+impl<W: Prim> Codec for Wd<SumAdd<W>> {
+    type M = W;
+    type T = SumAdd<W>;
+    fn item(t: &mut Toks) -> Self::T {
+        let (v, md, len) = fields::<W>(t);
+        let mut x = if by_new(t) { SumAdd::new(v) } else { SumAdd::from(v) };
+        x.md = md;
+        if let Some(l) = len {
+            x.len = l;
+        }
+        x
+    }
+    fn modifier(t: &mut Toks) -> W {
+        W::parse(t.next())
+    }
+    fn enc(x: &Self::T) -> String {
+        format!("{},{},{}", x.v.show(), x.len.show(), x.md.show())
+    }
+    fn eval(p: &Pred, x: &Self::T) -> bool {
+        match p {
+            Pred::True => true,
+            Pred::False => false,
+            Pred::Fst(q) => eval_w(q, x.v),
+            Pred::Snd(q) => eval_w(q, x.len),
+            _ => false,
+        }
+    }
+    fn consts() -> Vec<String> {
+        let mut out = Vec::new();
+        zo_consts::<W>(&mut out);
+        dflt_const::<W>(&mut out);
+        let d = <SumAdd<W>>::default();
+        differs(&mut out, "SumAdd::default().v", d.v, W::STD_ZERO);
+        differs(&mut out, "SumAdd::default().len", d.len, W::STD_ZERO);
+        differs(&mut out, "SumAdd::default().md", d.md, W::STD_ZERO);
+        for (how, x) in [("new", <SumAdd<W>>::new(W::STD_ONE)), ("from", <SumAdd<W>>::from(W::STD_ONE))] {
+            differs(&mut out, &format!("SumAdd::{}(1).v", how), x.v, W::STD_ONE);
+            differs(&mut out, &format!("SumAdd::{}(1).len (the length of a fresh leaf)", how), x.len, W::STD_ONE);
+            differs(&mut out, &format!("SumAdd::{}(1).md", how), x.md, W::STD_ZERO);
+        }
+        out
+    }
+}
+type WC2<W> = Combinator<MinAdd<W>, MaxAdd<W>>;
+type WC3<W> = Combinator<WC2<W>, SumAdd<W>>;
+type WCU<W> = Combinator<Min<W>, Combinator<Max<W>, Sum<W>>>;
+/// Default of a Combinator = the Defaults of its components (compared through the encodings and, because the
+/// encoding of a huge float is `X`, through the Debug rendering)
+fn comb_default<A: Codec, B: Codec>(out: &mut Vec<String>)
+where
+    Combinator<A::T, B::T>: Default,
+{
+    let d = <Combinator<A::T, B::T>>::default();
+    let (a, b) = (A::T::default(), B::T::default());
+    if A::enc(&d.0) != A::enc(&a) || B::enc(&d.1) != B::enc(&b) || format!("{:?}", d) != format!("Combinator({:?}, {:?})", a, b) {
+        out.push(format!("Combinator::default() = {:?}, the components' defaults are {:?}, {:?}", d, a, b));
+    }
+}
+impl<W: Prim> Codec for Wd<WC2<W>> {
+    type M = W;
+    type T = WC2<W>;
+    fn item(t: &mut Toks) -> Self::T {
+        let (v, md, _) = fields::<W>(t);
+        let mut x = <WC2<W>>::from(v);
+        x.0.md = md;
+        x.1.md = md;
+        x
+    }
+    fn modifier(t: &mut Toks) -> W {
+        W::parse(t.next())
+    }
+    fn enc(x: &Self::T) -> String {
+        format!("{},{}", <Wd<MinAdd<W>>>::enc(&x.0), <Wd<MaxAdd<W>>>::enc(&x.1))
+    }
+    fn eval(p: &Pred, x: &Self::T) -> bool {
+        match p {
+            Pred::True => true,
+            Pred::False => false,
+            Pred::Fst(q) => <Wd<MinAdd<W>>>::eval(q, &x.0),
+            Pred::Snd(q) => <Wd<MaxAdd<W>>>::eval(q, &x.1),
+            _ => false,
+        }
+    }
+    fn consts() -> Vec<String> {
+        let mut out = <Wd<MinAdd<W>>>::consts();
+        out.extend(<Wd<MaxAdd<W>>>::consts());
+        comb_default::<Wd<MinAdd<W>>, Wd<MaxAdd<W>>>(&mut out);
+        out
+    }
+}
+impl<W: Prim> Codec for Wd<WC3<W>> {
+    type M = W;
+    type T = WC3<W>;
+    fn item(t: &mut Toks) -> Self::T {
+        let (v, md, len) = fields::<W>(t);
+        let mut x = <WC3<W>>::from(v);
+        (x.0).0.md = md;
+        (x.0).1.md = md;
+        x.1.md = md;
+        if let Some(l) = len {
+            x.1.len = l;
+        }
+        x
+    }
+    fn modifier(t: &mut Toks) -> W {
+        W::parse(t.next())
+    }
+    fn enc(x: &Self::T) -> String {
+        format!("{},{}", <Wd<WC2<W>>>::enc(&x.0), <Wd<SumAdd<W>>>::enc(&x.1))
+    }
+    fn eval(p: &Pred, x: &Self::T) -> bool {
+        match p {
+            Pred::True => true,
+            Pred::False => false,
+            Pred::Fst(q) => <Wd<WC2<W>>>::eval(q, &x.0),
+            Pred::Snd(q) => <Wd<SumAdd<W>>>::eval(q, &x.1),
+            _ => false,
+        }
+    }
+    fn consts() -> Vec<String> {
+        let mut out = <Wd<WC2<W>>>::consts();
+        out.extend(<Wd<SumAdd<W>>>::consts());
+        comb_default::<Wd<WC2<W>>, Wd<SumAdd<W>>>(&mut out);
+        out
+    }
+}
+/// right-nested, modifier type (), built with From
+struct WMaxSum<W>(PhantomData<W>);
+impl<W: Prim> Codec for WMaxSum<W> {
+    type M = ();
+    type T = Combinator<Max<W>, Sum<W>>;
+    fn item(t: &mut Toks) -> Self::T {
+        <Self::T>::from(W::parse(t.next()))
+    }
+    fn modifier(t: &mut Toks) -> () {
+        t.next();
+    }
+    fn enc(x: &Self::T) -> String {
+        format!("{},{}", x.0.v.show(), x.1.v.show())
+    }
+    fn eval(p: &Pred, x: &Self::T) -> bool {
+        match p {
+            Pred::True => true,
+            Pred::False => false,
+            Pred::Fst(r) => eval_w(r, x.0.v),
+            Pred::Snd(r) => eval_w(r, x.1.v),
+            _ => false,
+        }
+    }
+    fn consts() -> Vec<String> {
+        let mut out = <Wd<Max<W>>>::consts();
+        out.extend(<Wd<Sum<W>>>::consts());
+        comb_default::<Wd<Max<W>>, Wd<Sum<W>>>(&mut out);
+        out
+    }
+}
+impl<W: Prim> Codec for Wd<WCU<W>> {
+    type M = ();
+    type T = WCU<W>;
+    fn item(t: &mut Toks) -> Self::T {
+        <WCU<W>>::from(W::parse(t.next()))
+    }
+    fn modifier(t: &mut Toks) -> () {
+        t.next();
+    }
+    fn enc(x: &Self::T) -> String {
+        format!("{},{}", x.0.v.show(), <WMaxSum<W>>::enc(&x.1))
+    }
+    fn eval(p: &Pred, x: &Self::T) -> bool {
+        match p {
+            Pred::True => true,
+            Pred::False => false,
+            Pred::Fst(q) => eval_w(q, x.0.v),
+            Pred::Snd(q) => <WMaxSum<W>>::eval(q, &x.1),
+            _ => false,
+        }
+    }
+    fn consts() -> Vec<String> {
+        let mut out = <Wd<Min<W>>>::consts();
+        out.extend(<WMaxSum<W>>::consts());
+        comb_default::<Wd<Min<W>>, WMaxSum<W>>(&mut out);
+        out
+    }
+}
+/// `w.<type>.<kind>`: the built-in item `<kind>` (named like the i64 kinds) over the primitive `<type>`
+fn run_width<W: Prim>(kind: &str, t: &mut Toks) -> String {
+    match kind {
+        "min" => run::<Wd<Min<W>>>(t),
+        "max" => run::<Wd<Max<W>>>(t),
+        "sum" => run::<Wd<Sum<W>>>(t),
+        "minadd" => run::<Wd<MinAdd<W>>>(t),
+        "maxadd" => run::<Wd<MaxAdd<W>>>(t),
+        "sumadd" => run::<Wd<SumAdd<W>>>(t),
+        "comb2" => run::<Wd<WC2<W>>>(t),
+        "comb3" => run::<Wd<WC3<W>>>(t),
+        "combunit" => run::<Wd<WCU<W>>>(t),
+        other => {
+            eprintln!("harness: unknown width kind {}", other);
+            std::process::exit(3)
+        }
+    }
+}
+
 // ---------------------------------------------------------------- the history runner
-fn items<T: Kind>(t: &mut Toks) -> Vec<T> {
+/// How the tokens of a history are turned into items of one item type and back.  The hand-written kinds
+/// implement `Kind` on the item type itself (`Own<T>` adapts them); the width kinds (`Wd<..>`, every built-in
+/// item over every primitive number type) are codecs of their own, so that e.g. the shifted `Min<u64>` above
+/// and the plain `Min<u64>` of the width family can coexist.
+trait Codec {
+    type M: Debug;
+    type T: Clone + Default + Debug + SegtreeItem<Self::M>;
+    fn item(t: &mut Toks) -> Self::T;
+    fn modifier(t: &mut Toks) -> Self::M;
+    fn enc(x: &Self::T) -> String;
+    fn eval(p: &Pred, x: &Self::T) -> bool;
+    /// constants the item type takes from a sibling crate that are not what std says (checked at every `dbg`)
+    fn consts() -> Vec<String> {
+        Vec::new()
+    }
+}
+struct Own<T>(PhantomData<T>);
+impl<T> Codec for Own<T>
+where
+    T: Kind + SegtreeItem<<T as Kind>::M>,
+{
+    type M = <T as Kind>::M;
+    type T = T;
+    fn item(t: &mut Toks) -> T {
+        <T as Kind>::item(t)
+    }
+    fn modifier(t: &mut Toks) -> Self::M {
+        <T as Kind>::modifier(t)
+    }
+    fn enc(x: &T) -> String {
+        <T as Kind>::enc(x)
+    }
+    fn eval(p: &Pred, x: &T) -> bool {
+        <T as Kind>::eval(p, x)
+    }
+}
+
+fn items<C: Codec>(t: &mut Toks) -> Vec<C::T> {
     let k: usize = t.int();
-    (0..k).map(|_| T::item(t)).collect()
+    (0..k).map(|_| C::item(t)).collect()
 }
 
 /// After debug() every inner node has been pushed, so further queries change nothing.  Every range is
 /// asked again and compared (all fields) with the left-to-right fold of `T::merge` over the single-element
 /// answers: the values stored in inner nodes (written by `update`) must agree with query-time `merge`.
-fn fold_check<T>(s: &mut Segtree<T, T::M>, n: usize) -> Option<String>
-where
-    T: Kind + SegtreeItem<<T as Kind>::M>,
-{
-    let leaves: Vec<T> = (0..n).map(|i| s.ask(i, i)).collect();
+fn fold_check<C: Codec>(s: &mut Segtree<C::T, C::M>, n: usize) -> Option<String> {
+    let leaves: Vec<C::T> = (0..n).map(|i| s.ask(i, i)).collect();
     let step = if n <= 48 { 1 } else { n / 24 };
     let mut l = 0;
     while l < n {
         let mut acc = leaves[l].clone();
         for r in l..n {
             if r > l {
-                acc = T::merge(&acc, &leaves[r]);
+                acc = <C::T as SegtreeItem<C::M>>::merge(&acc, &leaves[r]);
             }
             if step == 1 || r % step == step - 1 || r == n - 1 || r == l {
                 let got = s.ask(l, r);
-                if got.enc() != acc.enc() {
-                    return Some(format!("FOLD-MISMATCH {} {} ask={} fold={}", l, r, got.enc(), acc.enc()));
+                if C::enc(&got) != C::enc(&acc) {
+                    return Some(format!("FOLD-MISMATCH {} {} ask={} fold={}", l, r, C::enc(&got), C::enc(&acc)));
                 }
             }
         }
@@ -972,11 +1405,8 @@ where
     None
 }
 
-fn run<T>(t: &mut Toks) -> String
-where
-    T: Kind + SegtreeItem<<T as Kind>::M>,
-{
-    let mut tree: Option<Segtree<T, T::M>> = None;
+fn run<C: Codec>(t: &mut Toks) -> String {
+    let mut tree: Option<Segtree<C::T, C::M>> = None;
     let mut size: usize = 0;
     let mut out: Vec<String> = Vec::new();
     while !t.done() {
@@ -984,7 +1414,7 @@ where
         let chunk: Option<String> = match op {
             "new" => {
                 let n: usize = t.int();
-                let v = T::item(t);
+                let v = C::item(t);
                 vh::guarded(|| Segtree::new(n, v)).map(|s| {
                     tree = Some(s);
                     size = n;
@@ -993,7 +1423,7 @@ where
             }
             "raw" => {
                 let n: usize = t.int();
-                let v = T::item(t);
+                let v = C::item(t);
                 vh::guarded(|| Segtree::new_raw(n, v)).map(|s| {
                     tree = Some(s);
                     size = n;
@@ -1001,7 +1431,7 @@ where
                 })
             }
             "slice" => {
-                let xs: Vec<T> = items(t);
+                let xs: Vec<C::T> = items::<C>(t);
                 let k = xs.len();
                 vh::guarded(|| Segtree::from_slice(&xs)).map(|s| {
                     tree = Some(s);
@@ -1010,7 +1440,7 @@ where
                 })
             }
             "iter" => {
-                let xs: Vec<T> = items(t);
+                let xs: Vec<C::T> = items::<C>(t);
                 let k = xs.len();
                 vh::guarded(|| match k % 3 {
                     0 => Segtree::from_iter(xs.into_iter()),
@@ -1029,7 +1459,7 @@ where
             }
             "set" => {
                 let i: usize = t.int();
-                let v = T::item(t);
+                let v = C::item(t);
                 match tree.as_mut() {
                     None => None,
                     Some(s) => vh::guarded(|| s.set(i, v)).map(|_| "u".to_string()),
@@ -1038,7 +1468,7 @@ where
             "mod" => {
                 let l: usize = t.int();
                 let r: usize = t.int();
-                let m = T::modifier(t);
+                let m = C::modifier(t);
                 match tree.as_mut() {
                     None => None,
                     Some(s) => vh::guarded(|| s.modify(l, r, &m)).map(|_| "u".to_string()),
@@ -1049,7 +1479,7 @@ where
                 let r: usize = t.int();
                 match tree.as_mut() {
                     None => None,
-                    Some(s) => vh::guarded(|| s.ask(l, r)).map(|x| format!("i {}", x.enc())),
+                    Some(s) => vh::guarded(|| s.ask(l, r)).map(|x| format!("i {}", C::enc(&x))),
                 }
             }
             "lb" | "lbr" | "lbp" | "lbrp" => {
@@ -1063,19 +1493,19 @@ where
                         if kth > 0 {
                             // the predicate panics on its kth call; the panic is caught, the tree must stay usable
                             let calls = Cell::new(0usize);
-                            let f1 = |x: &T| {
+                            let f1 = |x: &C::T| {
                                 calls.set(calls.get() + 1);
                                 if calls.get() == kth {
                                     panic!("predicate");
                                 }
-                                T::eval(&p, x)
+                                C::eval(&p, x)
                             };
                             let _ = vh::guarded(|| if fwd { s.lower_bound(pos, f1) } else { s.lower_bound_rev(pos, f1) });
                         }
-                        let seen: RefCell<Vec<T>> = RefCell::new(Vec::new());
-                        let f = |x: &T| {
+                        let seen: RefCell<Vec<C::T>> = RefCell::new(Vec::new());
+                        let f = |x: &C::T| {
                             seen.borrow_mut().push(x.clone());
-                            T::eval(&p, x)
+                            C::eval(&p, x)
                         };
                         let res = vh::guarded(|| if fwd { s.lower_bound(pos, f) } else { s.lower_bound_rev(pos, f) });
                         res.map(|r| {
@@ -1085,7 +1515,7 @@ where
                             };
                             for x in seen.borrow().iter() {
                                 c.push(' ');
-                                c.push_str(&x.enc());
+                                c.push_str(&C::enc(x));
                             }
                             c
                         })
@@ -1096,7 +1526,10 @@ where
                 None => None,
                 Some(s) => vh::guarded(|| {
                     let d = s.debug();
-                    match fold_check(s, size) {
+                    if let Some(bad) = C::consts().first() {
+                        return format!("CONST-MISMATCH {}", bad);
+                    }
+                    match fold_check::<C>(s, size) {
                         None => d,
                         Some(bad) => bad,
                     }
@@ -1117,31 +1550,36 @@ fn main() {
     vh::serve(|toks| {
         let mut t = Toks { t: toks, i: 1 };
         match toks[0] {
-            "min" => run::<Min<i64>>(&mut t),
-            "max" => run::<Max<i64>>(&mut t),
-            "sum" => run::<Sum<i64>>(&mut t),
-            "minadd" => run::<MinAdd<i64>>(&mut t),
-            "maxadd" => run::<MaxAdd<i64>>(&mut t),
-            "sumadd" => run::<SumAdd<i64>>(&mut t),
-            "comb2" => run::<C2>(&mut t),
-            "comb3" => run::<C3>(&mut t),
-            "concat" => run::<Concat>(&mut t),
-            "affine" => run::<Affine>(&mut t),
-            "flip" => run::<Flip>(&mut t),
-            "minadd32" => run::<MinAdd<i32>>(&mut t),
-            "sumaddu64" => run::<SumAdd<u64>>(&mut t),
-            "minu64" => run::<Min<u64>>(&mut t),
-            "maxu64" => run::<Max<u64>>(&mut t),
-            "minkey" => run::<Min<Keyed>>(&mut t),
-            "maxkey" => run::<Max<Keyed>>(&mut t),
-            "minaddkey" => run::<MinAdd<Keyed>>(&mut t),
-            "maxaddkey" => run::<MaxAdd<Keyed>>(&mut t),
-            "minf" => run::<Min<f64>>(&mut t),
-            "maxf" => run::<Max<f64>>(&mut t),
-            "sumcat" => run::<Sum<Cat>>(&mut t),
-            "combcat" => run::<CCat>(&mut t),
-            "combunit" => run::<CU>(&mut t),
-            "combflip" => run::<CFl>(&mut t),
+            "min" => run::<Own<Min<i64>>>(&mut t),
+            "max" => run::<Own<Max<i64>>>(&mut t),
+            "sum" => run::<Own<Sum<i64>>>(&mut t),
+            "minadd" => run::<Own<MinAdd<i64>>>(&mut t),
+            "maxadd" => run::<Own<MaxAdd<i64>>>(&mut t),
+            "sumadd" => run::<Own<SumAdd<i64>>>(&mut t),
+            "comb2" => run::<Own<C2>>(&mut t),
+            "comb3" => run::<Own<C3>>(&mut t),
+            "concat" => run::<Own<Concat>>(&mut t),
+            "affine" => run::<Own<Affine>>(&mut t),
+            "flip" => run::<Own<Flip>>(&mut t),
+            "minadd32" => run::<Own<MinAdd<i32>>>(&mut t),
+            "sumaddu64" => run::<Own<SumAdd<u64>>>(&mut t),
+            "minu64" => run::<Own<Min<u64>>>(&mut t),
+            "maxu64" => run::<Own<Max<u64>>>(&mut t),
+            "minkey" => run::<Own<Min<Keyed>>>(&mut t),
+            "maxkey" => run::<Own<Max<Keyed>>>(&mut t),
+            "minaddkey" => run::<Own<MinAdd<Keyed>>>(&mut t),
+            "maxaddkey" => run::<Own<MaxAdd<Keyed>>>(&mut t),
+            "minf" => run::<Own<Min<f64>>>(&mut t),
+            "maxf" => run::<Own<Max<f64>>>(&mut t),
+            "sumcat" => run::<Own<Sum<Cat>>>(&mut t),
+            "combcat" => run::<Own<CCat>>(&mut t),
+            "combunit" => run::<Own<CU>>(&mut t),
+            "combflip" => run::<Own<CFl>>(&mut t),
+            w if w.starts_with("w.") => {
+                let mut parts = w.splitn(3, '.');
+                let (_, ty, kind) = (parts.next(), parts.next().unwrap_or(""), parts.next().unwrap_or(""));
+                for_prim!(ty, run_width, kind, &mut t; i8, i16, i32, i64, i128, isize, u8, u16, u32, u64, u128, usize, f32, f64)
+            }
             other => {
                 eprintln!("harness: unknown kind {}", other);
                 std::process::exit(3)
